@@ -817,9 +817,15 @@ func invariantValue(l *Loop, v ssa.Value, seen map[ssa.Value]bool) bool {
 	}
 	switch x := v.(type) {
 	case *ssa.UnOp:
-		// a re-load of the same place is invariant when nothing in the loop can write memory
+		// a re-load of the same place is invariant when nothing in the loop can write memory,
+		// or - for a field of a struct - when nothing the loop executes can write that field
+		// (a store to that field of that struct type, a store through a pointer to a value of
+		// the field's type, or a call that reaches a function doing either)
 		if x.Op == token.MUL && !loopWritesMemory(l) {
 			return invariantValue(l, x.X, seen)
+		}
+		if fa, ok := x.X.(*ssa.FieldAddr); ok && x.Op == token.MUL && MayWriteField != nil && !MayWriteField(l, fa) {
+			return invariantValue(l, fa.X, seen)
 		}
 		return false
 	case *ssa.FieldAddr:
@@ -840,6 +846,150 @@ func invariantValue(l *Loop, v ssa.Value, seen map[ssa.Value]bool) bool {
 			}
 		}
 		return ok
+	}
+	return false
+}
+
+// MayWriteField is installed by the program (Program.LoopMayWriteField).
+var MayWriteField func(l *Loop, fa *ssa.FieldAddr) bool
+
+type fieldKey struct {
+	owner string
+	idx   int
+}
+
+func fieldKeyOf(fa *ssa.FieldAddr) (fieldKey, types.Type, bool) {
+	pt, ok := fa.X.Type().Underlying().(*types.Pointer)
+	if !ok {
+		return fieldKey{}, nil, false
+	}
+	st, ok := pt.Elem().Underlying().(*types.Struct)
+	if !ok || fa.Field >= st.NumFields() {
+		return fieldKey{}, nil, false
+	}
+	return fieldKey{pt.Elem().String(), fa.Field}, st.Field(fa.Field).Type(), true
+}
+
+// LoopMayWriteField: can anything the loop executes write the field fa addresses? Direct stores
+// in the body, and calls: static callees are followed through their bodies (transitively), dynamic
+// calls in the loop itself count as "may write" unless the call graph resolves them.
+func (p *Program) LoopMayWriteField(l *Loop, fa *ssa.FieldAddr) bool {
+	key, ftyp, ok := fieldKeyOf(fa)
+	if !ok {
+		return true
+	}
+	if p.fieldWriters == nil {
+		p.fieldWriters = map[fieldKey]map[*ssa.Function]bool{}
+		p.ptrWriters = map[string]map[*ssa.Function]bool{}
+		for fn := range p.AllFunctions() {
+			for _, b := range fn.Blocks {
+				for _, in := range b.Instrs {
+					st, isSt := in.(*ssa.Store)
+					if !isSt {
+						continue
+					}
+					switch a := st.Addr.(type) {
+					case *ssa.FieldAddr:
+						if k, _, ok := fieldKeyOf(a); ok {
+							if p.fieldWriters[k] == nil {
+								p.fieldWriters[k] = map[*ssa.Function]bool{}
+							}
+							p.fieldWriters[k][fn] = true
+						}
+					case *ssa.Alloc, *ssa.IndexAddr, *ssa.Global:
+					default:
+						// a store through some other pointer: may hit any place of that type
+						if pt, ok := st.Addr.Type().Underlying().(*types.Pointer); ok {
+							ts := pt.Elem().String()
+							if p.ptrWriters[ts] == nil {
+								p.ptrWriters[ts] = map[*ssa.Function]bool{}
+							}
+							p.ptrWriters[ts][fn] = true
+						}
+					}
+				}
+			}
+		}
+		p.mayWriteMemo = map[fieldKey]map[*ssa.Function]bool{}
+	}
+	// whole-struct stores (*p = T{..}) write every field: a pointer store of the owner type
+	writers := map[*ssa.Function]bool{}
+	for f := range p.fieldWriters[key] {
+		writers[f] = true
+	}
+	for f := range p.ptrWriters[ftyp.String()] {
+		writers[f] = true
+	}
+	for f := range p.ptrWriters[key.owner] {
+		writers[f] = true
+	}
+	memo := p.mayWriteMemo[key]
+	if memo == nil {
+		memo = map[*ssa.Function]bool{}
+		p.mayWriteMemo[key] = memo
+	}
+	cg := p.CallGraph()
+	var reach func(fn *ssa.Function, seen map[*ssa.Function]bool) bool
+	reach = func(fn *ssa.Function, seen map[*ssa.Function]bool) bool {
+		if fn == nil {
+			return true
+		}
+		if v, ok := memo[fn]; ok {
+			return v
+		}
+		if seen[fn] {
+			return false
+		}
+		seen[fn] = true
+		if writers[fn] {
+			memo[fn] = true
+			return true
+		}
+		res := false
+		if n := cg.Nodes[fn]; n != nil {
+			for _, e := range n.Out {
+				if reach(e.Callee.Func, seen) {
+					res = true
+					break
+				}
+			}
+		} else if len(fn.Blocks) > 0 {
+			// not in the call graph (should not happen for original functions): be conservative
+			res = true
+		}
+		memo[fn] = res
+		return res
+	}
+	for b := range l.Body {
+		for _, in := range b.Instrs {
+			switch x := in.(type) {
+			case *ssa.Store:
+				switch a := x.Addr.(type) {
+				case *ssa.FieldAddr:
+					if k, _, ok := fieldKeyOf(a); ok && k == key {
+						return true
+					}
+				case *ssa.Alloc, *ssa.IndexAddr, *ssa.Global:
+				default:
+					if pt, ok := x.Addr.Type().Underlying().(*types.Pointer); ok && (pt.Elem().String() == ftyp.String() || pt.Elem().String() == key.owner) {
+						return true
+					}
+				}
+			case *ssa.Go, *ssa.Defer:
+				return true
+			case *ssa.Call:
+				if _, isB := x.Call.Value.(*ssa.Builtin); isB {
+					continue
+				}
+				callee := x.Call.StaticCallee()
+				if callee == nil {
+					return true // a dynamic call inside the loop: not resolved here
+				}
+				if reach(p.Original(callee), map[*ssa.Function]bool{}) {
+					return true
+				}
+			}
+		}
 	}
 	return false
 }
